@@ -10,6 +10,7 @@ package pagedrv
 import (
 	"bytes"
 	"encoding/binary"
+	"encoding/json"
 	"errors"
 	"fmt"
 	"sort"
@@ -496,4 +497,88 @@ func Try(fn func()) (panicked string) {
 	}()
 	fn()
 	return ""
+}
+
+// allocView is the part of a snapshot that a fresh open of the same disk
+// image must reproduce.
+type allocView struct {
+	DataEnd, MetaEnd uint64
+	MetaTotal        uint
+	DataFree         []txfile.VerifRegion
+	MetaFree         []txfile.VerifRegion
+	FreelistPages    []txfile.VerifRegion
+	WALMapping       [][2]uint64
+	WALMetaPages     []txfile.VerifRegion
+	Root             uint64
+	MaxPages         uint
+}
+
+// viewOf canonicalises one representation freedom: above the maximum size a
+// trailing run of meta pages may be counted to the data range (pages moved to
+// the meta area) or to the overflow area behind it, depending on whether the
+// limit was lowered before or after the state was loaded. Both behave the
+// same; the data end is reported below such a run.
+func viewOf(s txfile.VerifSnapshot) allocView {
+	if s.MaxPages > 0 && s.DataEnd > uint64(s.MaxPages) {
+		meta := map[uint64]bool{}
+		for _, l := range [][]txfile.VerifRegion{s.MetaFree, s.FreelistPages, s.WALMetaPages} {
+			for _, r := range l {
+				for k := uint64(0); k < uint64(r.Count); k++ {
+					meta[r.ID+k] = true
+				}
+			}
+		}
+		for _, m := range s.WALMapping {
+			meta[m[1]] = true
+		}
+		for s.DataEnd > uint64(s.MaxPages) && meta[s.DataEnd-1] {
+			s.DataEnd--
+		}
+	}
+	return allocView{DataEnd: s.DataEnd, MetaEnd: s.MetaEnd, MetaTotal: s.MetaTotal, DataFree: s.DataFree, MetaFree: s.MetaFree,
+		FreelistPages: s.FreelistPages, WALMapping: s.WALMapping, WALMetaPages: s.WALMetaPages, Root: s.Root, MaxPages: s.MaxPages}
+}
+
+// CheckMemVsDisk compares the allocator and mapping state the open File works
+// with against the state a second, fresh open of a copy of the current disk
+// contents arrives at. Between transactions, with the background writer idle
+// and no commit of unknown outcome, the two must be the same: the process
+// "sees exactly the last committed state". Must run under the scheduler.
+func (e *Env) CheckMemVsDisk(when string) {
+	if e.F == nil || e.T != nil || e.Dead || e.Maybe != nil {
+		return
+	}
+	ms := e.F.VerifSnapshot()
+	mem := viewOf(ms)
+	d := simdisk.FromImage("memvsdisk-"+e.Cfg.Name, e.Cfg.PageSize, e.Disk.Bytes())
+	o := e.Opts
+	o.Flags &^= txfile.FlagUpdMaxSize
+	o.Observer = nil
+	var f2 *txfile.File
+	var err error
+	if pn := Try(func() { f2, err = txfile.VerifOpen(d.Open(), o) }); pn != "" || err != nil {
+		e.violate("mem-vs-disk/open", "%s: a fresh open of the current disk contents fails: %v %s", when, ErrChain(err), firstLineOf(pn))
+		return
+	}
+	ds := f2.VerifSnapshot()
+	disk := viewOf(ds)
+	Try(func() { f2.Close() })
+	if ds.Txid[ds.MetaActive] != ms.Txid[ms.MetaActive] {
+		// A commit (of a transaction or of an open-time maintenance step) failed
+		// in its final sync: its header is on disk, the process continues with
+		// the previous state. Which of the two a later open sees is not known.
+		return
+	}
+	a, _ := json.Marshal(mem)
+	b, _ := json.Marshal(disk)
+	if !bytes.Equal(a, b) {
+		e.violate("mem-vs-disk/state", "%s: the open File works with %s, a fresh open of the same disk contents gives %s", when, a, b)
+	}
+}
+
+func firstLineOf(s string) string {
+	if i := strings.IndexByte(s, '\n'); i >= 0 {
+		return s[:i]
+	}
+	return s
 }
